@@ -241,8 +241,16 @@ def degenerate(rng, n, L, flat, p=0.15):
         return flat
     flat = list(flat)
     zero = flat[0] - flat[0]
-    kind = rng.choice(["const", "lane", "zero", "affine", "sym"])
-    if kind == "const":
+    kind = rng.choice(["const", "lane", "zero", "affine", "sym"] + (["mirror", "mirror"] if L >= 2 else []))
+    if kind == "mirror":
+        # lanes in exactly negated pairs (y, -y, ...; with an odd number one lane is left alone): every row sums to zero over the lanes
+        # although no lane is zero (seed C02-r7m1: an elimination step skipped when the *sum over all lanes* of a right-hand-side row is 0)
+        perm = list(range(L))
+        rng.shuffle(perm)
+        for a, b in zip(perm[0::2], perm[1::2]):
+            for i in range(n):
+                flat[i * L + b] = zero - flat[i * L + a]
+    elif kind == "const":
         for i in range(1, n):
             flat[i * L:(i + 1) * L] = flat[:L]
     elif kind == "lane":
